@@ -23,6 +23,27 @@ MATH = ["sqrt", "abs", "cos", "sin", "tan", "acos", "asin", "atan", "cosh", "sin
         "min", "max", "bessel_j", "bessel_y", "real", "imag", "conj", "cliteral", "cconst", "conjarg", "realarg", "clit-in-conj", "clit-in-conj2", "clit-trial", "cconst-in-conj"]
 
 
+MIXFN = ["sqrt", "abs", "cos", "sin", "tan", "acos", "asin", "atan", "cosh", "sinh", "tanh", "exp", "ln", "power"]
+MIXREAL = ["rek", "geo", "reg"]
+
+
+def mix_factor(fn, realkind, f, g, k, x):
+    """fn applied to a REAL-typed operand and to a complex-typed operand in ONE kernel (the C name differs per operand type: sqrt / csqrt ...)."""
+    def wrap(q):
+        if fn in ("sqrt", "ln", "power"):
+            return 1.5 + q * q
+        if fn in ("acos", "asin"):
+            return 0.5 * ufl.sin(q)
+        if fn == "tan":
+            return 0.5 * q
+        return q
+
+    F = {"sqrt": ufl.sqrt, "abs": abs, "cos": ufl.cos, "sin": ufl.sin, "tan": ufl.tan, "acos": ufl.acos, "asin": ufl.asin, "atan": ufl.atan, "cosh": ufl.cosh,
+         "sinh": ufl.sinh, "tanh": ufl.tanh, "exp": ufl.exp, "ln": ufl.ln, "power": lambda q: q ** 1.5}[fn]
+    r = {"rek": ufl.real(k), "geo": x[0] + 0.3, "reg": ufl.real(g)}[realkind]
+    return F(wrap(r)) * F(wrap(f)) + 0.5 * F(wrap(0.7 * r))
+
+
 def math_form(name, cell, arity):
     """A form whose factor applies exactly one math-table entry (arguments stay inside the real domains; complex data has small imaginary parts)."""
     import basix.ufl
@@ -35,6 +56,11 @@ def math_form(name, cell, arity):
     k = ufl.Constant(mesh)
     u, v = ufl.TrialFunction(V), ufl.TestFunction(V)
     re = ufl.real
+    if name.startswith("mix-"):
+        _, fn, rk = name.split("-")
+        fac = mix_factor(fn, rk, f, g, k, ufl.SpatialCoordinate(mesh))
+        core = {2: ufl.inner(u, v), 1: ufl.conj(v), 0: 1.0}[arity]
+        return fac * core * ufl.dx, mesh
     s = 0.5 * ufl.sin(f)  # in (-0.5, 0.5)
     fac = {
         "sqrt": lambda: ufl.sqrt(1.0 + f * g), "abs": lambda: abs(f - g), "cos": lambda: ufl.cos(f), "sin": lambda: ufl.sin(f * g), "tan": lambda: ufl.tan(0.5 * f),
@@ -124,6 +150,12 @@ def main():
         for cell in cells:
             for ar in (2, 1, 0):
                 items.append(("math", f"math:{name}:{cell}:arity{ar}", (name, cell, ar), chk.seed))
+    # one math function on a real-typed AND a complex-typed operand inside one kernel: all functions x {piecewise real constant, geometry, real part of a coefficient}
+    for fn in MIXFN:
+        for rk in MIXREAL:
+            for cell in cells[:1] if not chk.thorough else cells:
+                for ar in ((1, 0) if not chk.thorough else (2, 1, 0)):
+                    items.append(("math", f"math:mix-{fn}-{rk}:{cell}:arity{ar}", (f"mix-{fn}-{rk}", cell, ar), chk.seed))
     tot = dict(items=len(items), ok=0, inapplicable=0, rejected=0, violating=0, kernel_calls=0, nontrivial=0, compiled=0)
     samples, rejected = [], []
     for it, r in pmap(work, items, desc="C09"):
